@@ -20,6 +20,7 @@ import (
 	"errors"
 	"fmt"
 	"io"
+	"math"
 	"net/http"
 	"net/url"
 	"strconv"
@@ -818,6 +819,14 @@ func (o *operation) determineReadLimit() (limit int64, grow bool, makeError func
 		return 0, false, nil, err
 	}
 	return o.contentLen, true, contentLengthError, nil
+}
+
+// messageLimit is the largest size that any form of a single message may have.
+func (o *operation) messageLimit() int64 {
+	if o.methodConf == nil {
+		return math.MaxInt64 - 1
+	}
+	return int64(o.methodConf.maxMsgBufferBytes)
 }
 
 func (o *operation) drainBody(body io.ReadCloser) {
@@ -1707,7 +1716,7 @@ func (w *envelopingWriter) handleTrailer() error {
 	if w.trailerIsCompressed && data.Len() > 0 {
 		uncompressed := w.rw.op.bufferPool.Get()
 		defer w.rw.op.bufferPool.Put(uncompressed)
-		if err := w.rw.op.server.respCompression.decompress(uncompressed, data); err != nil {
+		if err := w.rw.op.server.respCompression.decompressLimited(uncompressed, data, w.rw.op.messageLimit()); err != nil {
 			return err
 		}
 		data = uncompressed
@@ -1841,7 +1850,7 @@ func (w *transformingWriter) flushMessage() error {
 		if w.latestEnvelope.compressed && w.buffer.Len() > 0 {
 			data = w.rw.op.bufferPool.Get()
 			defer w.rw.op.bufferPool.Put(data)
-			if err := w.rw.op.server.respCompression.decompress(data, w.buffer); err != nil {
+			if err := w.rw.op.server.respCompression.decompressLimited(data, w.buffer, w.rw.op.messageLimit()); err != nil {
 				return err
 			}
 		}
@@ -1929,7 +1938,7 @@ func (e *errorWriter) Close() error {
 	if compressPool := e.rw.op.server.respCompression; compressPool != nil && body.Len() > 0 {
 		uncompressed := bufferPool.Get()
 		defer bufferPool.Put(uncompressed)
-		if err := compressPool.decompress(uncompressed, body); err != nil {
+		if err := compressPool.decompressLimited(uncompressed, body, e.rw.op.messageLimit()); err != nil {
 			// can't really just return an error; we have to encode the
 			// error into the RPC response, so we populate respMeta.end
 			if e.respMeta.end.httpCode == 0 || e.respMeta.end.httpCode == http.StatusOK {
@@ -2219,7 +2228,7 @@ func (m *message) decompress(op *operation) error {
 		return nil
 	}
 	tmp := op.bufferPool.Get()
-	if err := pool.decompress(tmp, m.buf); err != nil {
+	if err := pool.decompressLimited(tmp, m.buf, op.messageLimit()); err != nil {
 		op.bufferPool.Put(tmp)
 		return err
 	}
